@@ -312,6 +312,11 @@ func Weave(dir string) (*Report, error) {
 					add(edit{off(x.Pos()), off(x.Pos()), fmt.Sprintf("simrt.MapRange(%q, ", site(x.Pos())), "sched:MapRange"}, x.Pos())
 					leaves = append(leaves, edit{off(sel.X.End()), off(x.End()), ")", ""})
 				}
+			case *ast.GoStmt:
+				// the simulator owns one thread; a goroutine would escape it
+				rep.Unwoven = append(rep.Unwoven, "go statement "+site(x.Pos()))
+			case *ast.SelectStmt:
+				rep.Unwoven = append(rep.Unwoven, "select statement "+site(x.Pos()))
 			case *ast.ForStmt:
 				leaves = append(leaves, edit{off(x.Body.Lbrace) + 1, off(x.Body.Lbrace) + 1, " simrt.Tick(); ", ""})
 				rep.Sites["tick:for"]++
